@@ -65,7 +65,7 @@ SHAPES = {
         ('AFieldsetsAgainstFiles', T('''
             if self.nc_linked and trajectory._fieldsets != set(self._nc.keys()):
                 raise ValueError()''')),
-        # optional until fix FC10b is applied (then always present): the declared associated field sets
+        # fix FC10b: the field sets declared for associated files
         ('AFieldsetsDeclaredForAssociated', T('''
             if self._file_creation_pending and (not self.associated_fieldsets <= trajectory._fieldsets):
                 raise ValueError()''')),
@@ -273,7 +273,7 @@ SHAPES = {
         ('CRefuseSharedFileNames', T('''
             if len(set(names)) != len(names):
                 raise ValueError()''')),
-        # optional until fix FC09b is applied: the name of the merged index is reserved
+        # fix FC09b: the name of the merged index is reserved
         ('CRefuseReservedIndexName', T('''
             if '_index.nc' in names:
                 raise ValueError()''')),
